@@ -8,7 +8,7 @@ tokens are the consumed sub-shapes; each node's parse actions (the real lambdas 
 by the extraction) are executed on them by E1."""
 import z3
 
-from hv.vc.values import Closure, OutOfSubset, PyExc
+from hv.vc.values import Closure, OutOfSubset, PyExc, Sym
 from hv.vc.shapes import Shape, Lit, Field
 from hv.lang import automata as A
 from hv.peg import marked as M
@@ -23,6 +23,14 @@ class Unaligned(OutOfSubset):
     def __init__(self, msg, witness=None):
         OutOfSubset.__init__(self, msg)
         self.witness = witness
+
+
+class CaseVariant(Sym):
+    """a token known only up to letter case (caseless literals return their own spelling): .upper()/.lower() are those of
+    the consumed text"""
+
+    def __init__(self, shape):
+        self.orig = shape
 
 
 class TokList(list):
@@ -102,6 +110,10 @@ class TokEval(object):
         clo = Closure(act.node, None, extract.module(MOD), act.qual.split('.')[-1])
         self.w.note_unit(extract.module(MOD), act.qual.split(MOD + '.')[-1], act.node)
         self.executed.append(act.qual)
+        if len(toks) == 1 and isinstance(toks[0], Shape):
+            d = deleted_characters(self.it, self.w, act)
+            if d is not None:
+                return [delete_from_shape(toks[0], d)]
         tl = TokList(toks)
         r = self.it.call_closure(clo, [tl], {}, inline=True)
         if r is None or r is tl:
@@ -178,8 +190,9 @@ class TokEval(object):
             try:
                 toks = self.eval(g.children[0], atoms, i, j, depth, True)
             except Unaligned:
-                if self._lexical_ok(g, atoms, i, j):
-                    return [self._text(atoms, i, j)]
+                t = self._lexical_token(g, atoms, i, j)
+                if t is not None:
+                    return [t]
                 raise
             parts = []
             for t in toks:
@@ -220,28 +233,50 @@ class TokEval(object):
         # longer extents: END somewhere inside the tail
         return True
 
-    def _lexical_ok(self, g, atoms, i, j):
-        """the token of this Combine is the consumed text itself: no suppressed part below it, every parse action below it
-        only deletes characters that the consumed language does not contain, every caseless literal below it returns
-        its own spelling and the consumed language contains no other-case spelling of it"""
+    def _lexical_token(self, g, atoms, i, j):
+        """The single token of this Combine when its inner structure does not fall on atom boundaries.  With no suppressed
+        part below it the token is the consumed text, except that (a) parse actions below it that delete a set D of characters
+        delete them - sound when no other leaf below can consume a character of D, so that deleting D from the whole text is
+        the same as deleting it inside those leaves; (b) caseless literals return their own spelling - then only the
+        case-insensitive reading of the token is known (CaseVariant).  None if the token cannot be described."""
         from hv.lang.charset import CS
-        forbidden = CS()
+        deleted = CS()
+        others = CS()
+        caseless = CS()
         for x in _walk(g.children[0]):
             if x.kind in ('suppress', 'group', 'forward'):
-                return False
+                return None
+            dx = CS()
             for a in x.actions:
                 d = deleted_characters(self.it, self.w, a)
                 if d is None:
-                    return False
-                forbidden = forbidden | d
+                    return None
+                dx = dx | d
+            deleted = deleted | dx
+            if x.kind in ('regex', 'lit', 'word1') and not dx:
+                for cs in self.comp._sets_of(x):
+                    others = others | cs
             if x.kind == 'caseless':
                 for ch, r in zip(x.text, x.ret):
                     for alt in {ch.lower(), ch.upper()} - {r}:
-                        forbidden = forbidden | CS.of(alt)
-        if not forbidden:
-            return True
-        bad = A.concat(A.sigma_star(), A.cset(forbidden), A.sigma_star())
-        return A.intersect_witness(self.lang(atoms, i, j), bad) is None
+                        caseless = caseless | CS.of(alt)
+                    others = others | CS.of(ch.lower(), ch.upper())
+        lang = self.lang(atoms, i, j)
+
+        def occurs(cs):
+            return bool(cs) and A.intersect_witness(lang, A.concat(A.sigma_star(), A.cset(cs), A.sigma_star())) is not None
+        text = self._text(atoms, i, j)
+        if occurs(deleted):
+            if deleted & others:
+                return None
+            text = delete_from_shape(text if isinstance(text, Shape) else Shape([Lit(text)]), deleted)
+        if occurs(caseless):
+            return CaseVariant(text if isinstance(text, Shape) else Shape([Lit(text)]))
+        return text
+
+    def _lexical_ok(self, g, atoms, i, j):
+        t = self._lexical_token(g, atoms, i, j)
+        return t is not None and not isinstance(t, CaseVariant) and JR_same(t if isinstance(t, Shape) else Shape([Lit(t)]), Shape(list(atoms[i:j])))
 
     def _textlike(self, c, atoms, i, j):
         """the alternative's only token is the text it consumed"""
@@ -335,3 +370,32 @@ def JR_same(a, b):
         elif p is not q:
             return False
     return True
+
+
+def delete_from_shape(sh, cs):
+    """the per-character deletion map applied to a shape (R-ind-str: a per-character map acts part by part)"""
+    from hv.lang.charset import CS
+    parts = []
+    for p in sh.parts:
+        if isinstance(p, Lit):
+            parts.append(Lit(''.join(c for c in p.text if ord(c) not in cs)))
+            continue
+        bad = A.concat(A.sigma_star(), A.cset(cs), A.sigma_star())
+        if A.intersect_witness(p.nfa(), bad) is None:
+            parts.append(p)
+            continue
+        n = A.NFA()
+        src = p.nfa()
+        n.n, n.start, n.finals = src.n, src.start, set(src.finals)
+        for a, l, b in src.trans:
+            if isinstance(l, CS):
+                keep = l - cs
+                if keep:
+                    n.add(a, keep, b)
+                if l & cs:
+                    n.add(a, None, b)
+            else:
+                n.add(a, l, b)
+        parts.append(Field(p.name + '~', n, 'deleted', ('deleted', p)))
+    r = Shape(parts)
+    return r.concrete() if r.concrete() is not None else r
